@@ -3,6 +3,7 @@ import Storrent.Model.CryptoConn
 import Storrent.Model.Handshake
 import Storrent.Lemmas.CryptoConn
 import Storrent.Gen.PolicyTable
+import Storrent.Lemmas.MseFlat
 /-
 C08 — Encryption policy is honoured and the encrypted stream is transparent.
 
@@ -359,6 +360,40 @@ theorem C08_keys_spec_client {α : Type} (cr : Handshake.MseCrypto) (o : Options
   intro yb ht hp
   simp only [ht, Bool.false_eq_true, if_false, hp]
   exact ⟨_, rfl⟩
+
+/-- **Keys and framing (server)**: the server-side counterpart.  On the stream an initiator
+    following the specification sends — Ya ++ PadA (PadA ≤ 512, the marker HASH('req1', S) not
+    occurring earlier), then the specification's message 3 `Spec.msg3` (S = Ya^x, any IA, any
+    crypto_provide the server's policy can serve) — the model of crypto.ServerHandshake
+    (a) finds the torrent from HASH('req2', SKEY) xor HASH('req3', S), (b) accepts VC,
+    crypto_provide and the `len(PadC)`, `len(IA)` framing decrypted with keyA =
+    HASH('keyA', S, SKEY) after the 1024-byte discard, (c) writes exactly message 2
+    `Yb ++ PadB` and the specification's message 4 `Spec.msg4` under keyB, and (d) hands on IA
+    and a connection that decrypts from keystream position 14 + 2 + len(IA) of keyA
+    (|VC| + 4 + 2, no PadC, 2, IA) and encrypts from position 14 of keyB (|VC| + 4 + 2, no
+    padD) when RC4 was selected, and the raw connection otherwise.  DH, SHA-1, RC4 arbitrary. -/
+theorem C08_keys_spec_server {α : Type} (cr : Handshake.MseCrypto) (o : Options) (x pad : Bytes)
+    (skeys : List Bytes) (k : Bool → Bytes → (Bytes → Bytes) → Handshake.Prog α)
+    (ya padA skey ia : Bytes) (provide : Nat) (more out : List Bytes)
+    (ha : o.allowCH = true) (hya : ya.length = 96) (htriv : cr.trivial ya = false)
+    (hH : ∀ b, (cr.hash b).length = 20)
+    (hfirst : findSub (cr.hash ("req1".toUTF8.toList ++ cr.dh x ya))
+        (padA ++ Spec.msg3 cr.hash cr.ks (cr.dh x ya) skey provide ia) = some padA.length)
+    (hpad : padA.length ≤ 512)
+    (hskey : Handshake.findSkey cr (cr.hash ("req2".toUTF8.toList ++ skey)) skeys = some skey)
+    (hprov : provide < 256) (hprov4 : provide % 4 ≠ 0) (hia : ia.length < 65536)
+    (hsel : serverSelect o provide ≠ 0) :
+    Handshake.runF (Handshake.mseServer cr o x pad skeys k)
+        ⟨ya ++ padA, Spec.msg3 cr.hash cr.ks (cr.dh x ya) skey provide ia :: more, out⟩
+      = Handshake.runF
+          (if serverSelect o provide = 1 then .unread ia (k false skey id)
+           else .xorAll (fun i => Spec.keystream cr.hash cr.ks "keyA" (cr.dh x ya) skey (14 + 2 + ia.length + i))
+                  (.unread ia (k true skey (xorAt (Spec.keystream cr.hash cr.ks "keyB" (cr.dh x ya) skey) 14))))
+          ⟨more.headD [], more.tail,
+            out ++ [Spec.msg1 (cr.pub x) pad] ++
+              [Spec.msg4 cr.hash cr.ks (cr.dh x ya) skey (serverSelect o provide)]⟩ :=
+  Handshake.mseServer_flat cr o x pad skeys k ya padA skey ia provide more out ha hya htriv hH hfirst hpad
+    hskey hprov hprov4 hia hsel
 
 /-! ### non-vacuity -/
 
